@@ -136,7 +136,16 @@ pub fn run_example_arm(arm: &str, seed: u64, run: u64, agg: &mut Agg, explicit: 
     let res = run_example(name, &argv, (spec.sched_threads)(threads), sched_seed, strategy.as_deref(), 60);
     let _ = std::fs::remove_file(&path);
     let ctx = format!("width={:?} threads={} sched_seed={} instance: {}", width, threads, sched_seed, inst.describe);
-    let viol = judge(name, &inst, &res, &ctx);
+    let mut viol = judge(name, &inst, &res, &ctx);
+    // a wrong objective is re-examined at a very large width (no merge, no restriction ever happens there): a defect of the
+    // relaxation side (merge, relaxed costs, rough bound) disappears, a defect of the reader / exact model does not
+    if viol.iter().any(|v| v.class == "example-wrong-objective") && width != Some(1000) {
+        let argv2 = (spec.cli)(&{ let mut f = std::fs::File::create(&path).ok()?; f.write_all(inst.content.as_bytes()).ok()?; path.clone() }, Some(1000), 1);
+        let res2 = run_example(name, &argv2, (spec.sched_threads)(1), sched_seed, None, 60);
+        let _ = std::fs::remove_file(&path);
+        let wide_ok = !res2.timed_out && res2.code == Some(0) && parse_objective(&res2.stdout) == Some(inst.expected.unwrap_or(inst.no_solution_prints));
+        for v in viol.iter_mut() { if v.class == "example-wrong-objective" { v.msg.push_str(if wide_ok { " [relaxation-dependent: the program agrees with the oracle at --width 1000]" } else { " [still wrong at --width 1000]" }); } }
+    }
     // coverage
     agg.add(&format!("example_runs:{name}"), 1);
     agg.hit("infeasible_instance", inst.expected.is_none());
